@@ -626,3 +626,21 @@ THEOREMS = list(THEOREMS) + ['SRC_get_subset_content', 'SRC_get_subset']
 # varying classes (Props/SRCinsert.v); the ('global','const') path is translated and executed against the code only
 COQ_PROPS = list(COQ_PROPS) + ['Props/SRCinsert.v']
 THEOREMS = list(THEOREMS) + ['SRC_insert_slice', 'SRC_insert_non_slice', 'SRC_insert_sample']
+
+
+# source tie, stage D (integrator): _insert as a whole TRANSLATED and proved to refine insert_k over all keys (success-case form), and the
+# reclassification step refines reclassify_k (Props/SRCinsertall.v)
+COQ_PROPS = list(COQ_PROPS) + ['Props/SRCinsertall.v']
+THEOREMS = list(THEOREMS) + ['SRC_insert', 'SRC_reclassify']
+
+
+# source tie, stage D (integrator): from_sequence as a whole TRANSLATED and proved to refine merge_hdr + merge_k over all keys
+# (success-case form) (Props/SRCfromseq.v)
+COQ_PROPS = list(COQ_PROPS) + ['Props/SRCfromseq.v']
+THEOREMS = list(THEOREMS) + ['SRC_from_sequence', 'SRC_merge_hdr']
+
+
+# source tie, end to end (integrator): Props/SRCtop.v composes the translated get_subset / from_sequence with Link.Abs.to_content:
+# for valid nondegenerate extensions the code's method on to_content e returns a content that Holds exactly the hand model's result
+COQ_PROPS = list(COQ_PROPS) + ['Props/SRCtop.v']
+THEOREMS = list(THEOREMS) + ['SRC_top_get_subset', 'SRC_top_get_subset_valid', 'SRC_sideb_sound', 'SRC_top_from_sequence', 'SRC_top_from_sequence_valid', 'SRC_traj_okb_sound', 'SRC_from_sequence_ext', 'SRC_valid_inputs']
